@@ -67,13 +67,23 @@ type c27Case struct {
 	// without handlers and they are installed by a configuration reload
 	// (UpdateScripts) before the event; 2 they are configured from the start and
 	// a reload removes them all before the event
+	// 3 a reload installs decoy handlers and a second reload, still before the
+	// event, installs the generated ones (the last reload counts, no decoy may
+	// run); 4 the agent starts without handlers, handles an unrelated event, and
+	// only then a reload installs the generated ones (a reload after the first
+	// event must work like one before it)
 	Reload int `json:"reload,omitempty"`
+	// QClock > 0 (queries): before the query is issued the node sees a query with
+	// this Lamport time from elsewhere, so the query under test gets QClock+1
+	// (values around 2^31, 2^32, 2^53, 2^63) instead of the 1 of a fresh node
+	QClock uint64 `json:"qclock,omitempty"`
 }
 
 var (
 	c27EvTypes    = []string{"member-join", "member-leave", "member-failed", "member-update", "member-reap", "user", "query"}
 	c27SerfTypes  = []serf.EventType{serf.EventMemberJoin, serf.EventMemberLeave, serf.EventMemberFailed, serf.EventMemberUpdate, serf.EventMemberReap}
-	c27NamePool   = []string{"deploy", "load", "dep", "Deploy", "a.b", "user", "query", "deploy:prod", "a:b:c", "deploy:"}
+	c27NamePool   = []string{"deploy", "load", "dep", "Deploy", "a.b", "user", "query", "deploy:prod", "a:b:c", "deploy:", "member-join", "ploy", "deploy ", "*"}
+	c27QClocks    = []uint64{0, 0, 1<<31 - 2, 1<<32 - 2, 1<<32 - 1, 1 << 53, 1<<63 - 2, 1<<63 - 1, 1<<64 - 10}
 	c27Nasty      = []rune("ab \t\n=,é日-_.:Z9\\")
 	c27TagRunes   = []rune("roleabAZ09_-.:= é\t")
 	c27Addrs      = []string{"10.0.0.1", "192.168.1.20", "::1", "fe80::1", ""}
@@ -141,7 +151,7 @@ func genC27(t *rapid.T) c27Case {
 	c.EvKind = rapid.SampledFrom([]int{6, 0, 5, 6, 1, 2, 3, 4, 5}).Draw(t, "evkind")
 	c.SelfName = c27GenStr(t, "selfname")
 	c.SelfTags = c27GenTags(t, "selftags", 4)
-	c.Reload = rapid.SampledFrom([]int{0, 0, 0, 1, 1, 2}).Draw(t, "reload")
+	c.Reload = rapid.SampledFrom([]int{0, 0, 0, 1, 1, 2, 3, 4}).Draw(t, "reload")
 	ns := 1
 	if c.EvKind != 6 {
 		ns = rapid.SampledFrom([]int{1, 1, 2, 3}).Draw(t, "nscripts")
@@ -201,6 +211,7 @@ func genC27(t *rapid.T) c27Case {
 		}
 		if c.EvKind == 6 {
 			c.LTime = 0
+			c.QClock = rapid.SampledFrom(c27QClocks).Draw(t, "qclock")
 			c.RespLimit = rapid.SampledFrom(c27RespLimits).Draw(t, "resplimit")
 			if rapid.IntRange(0, 3).Draw(t, "nearlimit") == 0 {
 				// straddle the limit: encoded response = output + a few dozen bytes
@@ -478,17 +489,37 @@ func bodyC27(c c27Case, x *vkit.Ctx) {
 		Logger:   log.New(&logBuf, "", 0),
 	}
 	configured := true // are the generated handlers the ones in force when the event arrives?
+	// decoy handlers: same helper, slot 100+i; none of them may ever run
+	var decoys []agent.EventScript
+	if c.Reload == 3 {
+		for i := range c.Scripts {
+			d := c27Script{Out: 3, ErrFrom: 3}
+			cmd := fmt.Sprintf("'%s' c27helper '%s' %d %d %d %d", setup.exe, base, 100+i, d.Out, d.ErrFrom, d.Exit)
+			if setup.kind == "sh" {
+				cmd = c27ShellScript(base, 100+i, d, setup.pattern)
+			}
+			decoys = append(decoys, agent.ParseEventScript(cmd)...)
+		}
+	}
 	switch c.Reload {
 	case 1:
 		h.Scripts = nil
 		h.UpdateScripts(scripts)
 		x.Label("handlers-installed-by-reload")
 	case 2:
-		if c.EvKind != 6 { // the query response oracle below assumes its handler is configured
-			h.UpdateScripts([]agent.EventScript{})
-			configured = false
-			x.Label("handlers-removed-by-reload")
-		}
+		h.UpdateScripts([]agent.EventScript{})
+		configured = false
+		x.Label("handlers-removed-by-reload")
+	case 3:
+		h.Scripts = nil
+		h.UpdateScripts(decoys)
+		h.UpdateScripts(scripts)
+		x.Label("handlers-installed-by-second-reload")
+	case 4:
+		h.Scripts = nil
+		h.HandleEvent(serf.UserEvent{LTime: 1, Name: "before-the-reload", Payload: []byte("x")}) // no handler configured: nothing runs
+		h.UpdateScripts(scripts)
+		x.Label("handlers-installed-by-reload-after-an-event")
 	}
 
 	// the event
@@ -523,14 +554,40 @@ func bodyC27(c c27Case, x *vkit.Ctx) {
 		}
 		defer n.Stop()
 		n.Drain(node.Settle)
+		if c.QClock > 0 {
+			if c.QClock > 1<<64-4 {
+				x.Inconclusive("malformed query case")
+				return
+			}
+			warm, err := serf.VerifEncodeMessage(serf.VerifMessageQueryType, &serf.VerifMessageQuery{
+				LTime: serf.LamportTime(c.QClock), ID: 4242, Addr: []byte{10, 9, 8, 7}, Port: 7946, SourceNode: "elsewhere",
+				Flags: serf.VerifQueryFlagNoBroadcast, Timeout: time.Minute, Name: "\x01seen-before"}, false)
+			if err != nil {
+				x.Inconclusive("cannot encode the clock-raising query")
+				return
+			}
+			n.Delegate.NotifyMsg(warm)
+			x.Label("query:lamport-time-at-a-boundary")
+		}
 		qresp, err = n.Serf.Query(c.Name, append([]byte(nil), c.Payload...), &serf.QueryParam{Timeout: 10 * time.Minute})
 		if err != nil {
 			x.Inconclusive("query could not be issued")
 			return
 		}
+		qlt, qid := qresp.VerifID()
+		if c.QClock > 0 && uint64(qlt) != c.QClock+1 {
+			x.Inconclusive("the query did not get the Lamport time the case asked for")
+			return
+		}
+		mine := func(e serf.Event) *serf.Query {
+			if q, isQ := e.(*serf.Query); isQ && q.LTime == qlt && q.VerifID() == qid && q.Name == c.Name {
+				return q
+			}
+			return nil
+		}
 		evs, ok := n.WaitEvents(5*time.Second, func(es []serf.Event) bool {
 			for _, e := range es {
-				if _, isQ := e.(*serf.Query); isQ {
+				if mine(e) != nil {
 					return true
 				}
 			}
@@ -541,7 +598,7 @@ func bodyC27(c c27Case, x *vkit.Ctx) {
 			return
 		}
 		for _, e := range evs {
-			if q, isQ := e.(*serf.Query); isQ {
+			if q := mine(e); q != nil {
 				query = q
 			}
 		}
@@ -612,6 +669,10 @@ func bodyC27(c c27Case, x *vkit.Ctx) {
 		}
 	}
 	x.Labelf("invocations=%d", min(invocations, 4))
+	if files, _ := filepath.Glob(fmt.Sprintf("%s.1[0-9][0-9].*.env", base)); len(files) > 0 {
+		x.Violationf("ran-replaced-handler", "a handler list that a later reload replaced before any event arrived ran all the same (%d run(s))", len(files))
+		return
+	}
 
 	// NT bookkeeping
 	if c.EvKind < 5 && invocations > 0 {
@@ -643,7 +704,7 @@ func bodyC27(c c27Case, x *vkit.Ctx) {
 	// ---- query response
 	if c.EvKind == 6 {
 		s := c.Scripts[0]
-		ran := c27Matches(s.Spec, evType, nameForFilter) > 0
+		ran := configured && c27Matches(s.Spec, evType, nameForFilter) > 0
 		var wantPayload []byte
 		expect := false
 		if ran && s.Exit == 0 && s.Out > 0 {
